@@ -95,6 +95,7 @@ func main() {
 	flag.Parse()
 	r := lib.Rand()
 	w := lib.NewWriter(header, 60)
+	defer w.Guard()
 	n := lib.Count(120, 2500)
 
 	logKey := pki.Key("p256", 9)
@@ -110,12 +111,17 @@ func main() {
 			r.Read(caSKI)
 		}
 		caAKIself := r.Intn(2) == 0
+		// sometimes the issuing CA is itself issued by a root, so that submitted chains continue past it
+		var root *pki.Entity
+		if r.Intn(2) == 0 {
+			root = pki.Issue(pki.Opts{CN: fmt.Sprintf("Root %d", i), IsCA: true, KeyKind: keyKinds[r.Intn(4)], KeyIdx: 7 + r.Intn(2)}, nil)
+		}
 		ca := pki.Issue(pki.Opts{CN: fmt.Sprintf("CA %d", i), IsCA: true, KeyKind: keyKinds[r.Intn(2)], KeyIdx: r.Intn(3), SKI: caSKI,
 			Mutate: func(t *x509.Certificate) {
-				if caAKIself && caSKI != nil {
+				if caAKIself && caSKI != nil && root == nil {
 					t.AuthorityKeyId = caSKI
 				}
-			}}, nil)
+			}}, root)
 		usePre := r.Intn(2) == 0
 		var preIss *pki.Entity
 		if usePre {
@@ -206,6 +212,14 @@ func main() {
 		if !pan && (berr == nil) != expectOK {
 			propOK, note = false, fmt.Sprintf("BuildPrecertTBS ok=%v for mutation %s", berr == nil, mut)
 		}
+		if propOK && berr == nil && mut == "none" && !usePre {
+			// independent reference: the same certificate content issued WITHOUT the poison extension
+			// (same issuer, serial, validity, key, other extensions in the same order) has, byte for byte,
+			// the TBSCertificate that de-poisoning must produce
+			if plain := mk(others, ca); !bytes.Equal(built, plain.Cert.RawTBSCertificate) {
+				propOK, note = false, "BuildPrecertTBS output differs from the TBSCertificate of the same certificate issued without the poison extension"
+			}
+		}
 		w.Add(lib.Case{
 			Coq:    fmt.Sprintf("CBuild %s %s (%s)", lib.Bytes(tbs), preCoq, obsBytes(built, berr, pan)),
 			Input:  map[string]interface{}{"op": "build-precert-tbs", "bare": bare, "preissuer": usePre, "mutation": mut, "others": nExtra, "poison_at": pi, "leaf_key": leafKind},
@@ -219,6 +233,9 @@ func main() {
 		chain := []*x509.Certificate{precert.Cert, ca.Cert}
 		if usePre {
 			chain = []*x509.Certificate{precert.Cert, preIss.Cert, ca.Cert}
+		}
+		if root != nil {
+			chain = append(chain, root.Cert)
 		}
 		ts := uint64(1500000000000 + r.Int63n(1e11))
 		leaf, lerr := ct.MerkleTreeLeafFromChain(chain, ct.PrecertLogEntryType, ts)
@@ -348,6 +365,9 @@ func main() {
 		}
 		// end to end: the embedded SCT verifies exactly when the log signed that precertificate
 		fchain := []*x509.Certificate{final.Cert, ca.Cert}
+		if root != nil {
+			fchain = append(fchain, root.Cert)
+		}
 		verr := ctutil.VerifySCT(logPub, fchain, sct, true)
 		eleaf, eerr := ct.MerkleTreeLeafForEmbeddedSCT(fchain, ts)
 		lb1, _ := tls.Marshal(*leaf)
@@ -369,10 +389,10 @@ func main() {
 		w.Add(lib.Case{
 			Coq:    fmt.Sprintf("CRemoveSct %s (%s)", lib.Bytes(final.Cert.RawTBSCertificate), obsBytes(rem, rerr, rpan)),
 			Key:    fmt.Sprintf("e2e-%d", i),
-			Input:  map[string]interface{}{"op": "verify-embedded-sct", "mutation": fmut, "preissuer": usePre},
+			Input:  map[string]interface{}{"op": "verify-embedded-sct", "mutation": fmut, "preissuer": usePre, "chain_len": len(chain)},
 			Impl:   map[string]interface{}{"embedded_verifies": verr == nil, "precert_sct_verifies": perr2 == nil, "leaves_equal": bytes.Equal(lb1, lb2)},
 			PropOK: e2eOK, Note: fmt.Sprintf("embedded SCT verification (%v) inconsistent with the log's signature for mutation %s", verr == nil, fmut),
-			Tags: []string{"e2e:" + fmut + fmt.Sprintf(":verifies=%v", verr == nil)},
+			Tags: []string{"e2e:" + fmut + fmt.Sprintf(":verifies=%v", verr == nil), fmt.Sprintf("e2e-chain:pre=%v:len=%d", usePre, len(chain))},
 		})
 	}
 	w.Close()
